@@ -37,17 +37,23 @@ BEEnc(n, k) == IF k = 0 THEN <<>> ELSE Append(BEEnc(n \div 256, k - 1), n % 256)
 
 \* Lexicographic comparison of equal-length strings = numeric comparison of
 \* the big-endian values.  -1, 0, 1.
+RECURSIVE FirstDiff(_, _, _)
+FirstDiff(a, b, i) == IF i > Len(a) THEN 0 ELSE IF a[i] # b[i] THEN i ELSE FirstDiff(a, b, i + 1)
+
 CmpBE(a, b) ==
-  LET diff == {i \in 1..Len(a) : a[i] # b[i]}
-  IN IF diff = {} THEN 0
-     ELSE LET i == CHOOSE j \in diff : \A k \in diff : j <= k
-          IN IF a[i] < b[i] THEN -1 ELSE 1
+  LET i == FirstDiff(a, b, 1)
+  IN IF i = 0 THEN 0 ELSE IF a[i] < b[i] THEN -1 ELSE 1
 
 \* Numeric comparison of two big-endian strings of any lengths.
+RECURSIVE FirstNonZero(_, _)
+FirstNonZero(s, i) == IF i > Len(s) THEN 0 ELSE IF s[i] # 0 THEN i ELSE FirstNonZero(s, i + 1)
+
+RECURSIVE LastNonZero(_, _)
+LastNonZero(s, i) == IF i = 0 THEN 0 ELSE IF s[i] # 0 THEN i ELSE LastNonZero(s, i - 1)
+
 StripLeadingZeros(s) ==
-  LET nz == {i \in 1..Len(s) : s[i] # 0}
-  IN IF nz = {} THEN <<>>
-     ELSE SubSeq(s, CHOOSE j \in nz : \A k \in nz : j <= k, Len(s))
+  LET k == FirstNonZero(s, 1)
+  IN IF k = 0 THEN <<>> ELSE SubSeq(s, k, Len(s))
 
 CmpNum(a, b) ==
   LET x == StripLeadingZeros(a)
